@@ -469,6 +469,8 @@ struct SCase<'a> {
     delivered: BTreeSet<u32>,          // frames reported acknowledged so far
     acked_pns: BTreeSet<u64>,
     lost_pns: BTreeSet<u64>,
+    now_ms: u64,
+    expire_at: BTreeMap<u64, u64>,     // pn → paused-clock ms at which a Retransmitted record may be dropped
     leaked: bool,
     dead: bool,
     n_ack_ok: u32, n_repeat: u32, n_lost: u32,
@@ -476,7 +478,7 @@ struct SCase<'a> {
 
 impl<'a> SCase<'a> {
     fn new(sink: &'a mut Sink, cap: usize) -> Self {
-        SCase { j: ArcSentJournal::with_capacity(cap), sink, fid: 0, sent: BTreeMap::new(), next_pn: 0, delivered: BTreeSet::new(), acked_pns: BTreeSet::new(), lost_pns: BTreeSet::new(), leaked: false, dead: false, n_ack_ok: 0, n_repeat: 0, n_lost: 0 }
+        SCase { j: ArcSentJournal::with_capacity(cap), sink, fid: 0, sent: BTreeMap::new(), next_pn: 0, delivered: BTreeSet::new(), acked_pns: BTreeSet::new(), lost_pns: BTreeSet::new(), now_ms: 0, expire_at: BTreeMap::new(), leaked: false, dead: false, n_ack_ok: 0, n_repeat: 0, n_lost: 0 }
     }
 
     /// frames reported for the acknowledged packet numbers `pns` (in call order)
@@ -498,7 +500,8 @@ impl<'a> SCase<'a> {
                 let all = fs.iter().all(|f| got.contains(f));
                 let none = fs.iter().all(|f| !got.contains(f));
                 if !(all || none) { self.sink.monitor_fail("acked_partial", &format!("{}: only some frames of packet {} reported", what, pn)); return; }
-                if none && !fs.is_empty() && !self.lost_pns.contains(pn) { self.sink.monitor_fail("acked_frames_missing", &format!("{}: packet {} acknowledged for the first time (never declared lost) but its frames {:?} were not reported", what, pn, fs)); return; }
+                let may_be_dropped = self.lost_pns.contains(pn) && self.expire_at.get(pn).map_or(true, |e| *e <= self.now_ms);
+                if none && !fs.is_empty() && !may_be_dropped { self.sink.monitor_fail("acked_frames_missing", &format!("{}: packet {} acknowledged for the first time (not declared lost, or declared lost but not yet expired) but its frames {:?} were not reported", what, pn, fs)); return; }
                 if all { expect.extend(fs.iter()); newly.insert(*pn); }
             }
         }
@@ -522,7 +525,7 @@ impl<'a> SCase<'a> {
                 let consumed = k > 0 || triv;
                 if consumed {
                     if pn < self.next_pn { self.sink.monitor_fail("pn_reused", &format!("packet built with pn {} after {}", pn, self.next_pn)); }
-                    self.sent.insert(pn, ids.clone()); self.next_pn = pn + 1;
+                    self.sent.insert(pn, ids.clone()); self.next_pn = pn + 1; self.expire_at.insert(pn, self.now_ms + et);
                 }
                 self.sink.line(&ops, &format!("pn={} {}", if consumed { pn.to_string() } else { "-".into() }, dump_sent(&self.j)));
             }
@@ -623,7 +626,7 @@ impl<'a> SCase<'a> {
                 }
             }
             SOp::Rotate => { drop(self.j.rotate()); self.sink.line("rotate", &format!("ok {}", dump_sent(&self.j))); }
-            SOp::Tick(ms) => { tokio::time::advance(Duration::from_millis(ms)).await; self.sink.line(&format!("tick {}", ms), "ok"); }
+            SOp::Tick(ms) => { tokio::time::advance(Duration::from_millis(ms)).await; self.now_ms += ms; self.sink.line(&format!("tick {}", ms), "ok"); }
         }
     }
 }
